@@ -478,37 +478,83 @@ fn pools_mode(rng: &mut Rng, n: usize, thorough: bool) {
       }
     }
   }
-  // spectra, counts, HOM
+  // spectra (ALL range functions x ALL five space representations), counts, HOM (incl. the SPDC:: methods and the two-source calls)
   for case in 0..n.min(if thorough { 4 } else { 2 }) {
-    let res = 6 + 2 * rng.below(3) + if thorough { 6 } else { 0 };
-    let seq_divs = 10 + 2 * rng.below(4);
+    // non-square grid; case parity alternates the default setup and the asymmetric type-II KTP setup
+    let (rx, ry) = (3 + rng.below(3) + if thorough { 3 } else { 0 }, 2 + rng.below(2) + if thorough { 2 } else { 0 });
+    let seq_divs = 6 + 2 * rng.below(3);
+    let work = move || {
+      let spdc = if case % 2 == 1 { SPDC::default() } else { ktp() };
+      let base = spdc.optimum_range(8).as_steps();
+      let fs = FrequencySpace::new((base.0 .0, base.0 .1, rx), (base.1 .0, base.1 .1, ry));
+      let integ = Integrator::Simpson { divs: seq_divs }; // sequential 1-D quadrature inside each point
+      let sp = spdc.joint_spectrum(integ);
+      let un = |v: Vec<spdcalc::JSIUnits<f64>>| -> Vec<f64> { v.iter().map(|x| *x.value_unsafe()).collect() };
+      let ucx = |v: Vec<Complex<f64>>| -> Vec<f64> { v.iter().flat_map(|z| [z.re, z.im]).collect() };
+      let mut arrays: Vec<(String, Vec<f64>)> = vec![];
+      macro_rules! eight {
+        ($tag:expr, $mk:expr) => {{
+          arrays.push((format!("jsa_range/{}", $tag), ucx(sp.jsa_range($mk))));
+          arrays.push((format!("jsa_normalized_range/{}", $tag), ucx(sp.jsa_normalized_range($mk))));
+          arrays.push((format!("jsi_range/{}", $tag), un(sp.jsi_range($mk))));
+          arrays.push((format!("jsi_normalized_range/{}", $tag), sp.jsi_normalized_range($mk)));
+          arrays.push((format!("jsi_singles_range/{}", $tag), un(sp.jsi_singles_range($mk))));
+          arrays.push((format!("jsi_singles_idler_range/{}", $tag), un(sp.jsi_singles_idler_range($mk))));
+          arrays.push((format!("jsi_singles_normalized_range/{}", $tag), sp.jsi_singles_normalized_range($mk)));
+          arrays.push((format!("jsi_singles_idler_normalized_range/{}", $tag), sp.jsi_singles_idler_normalized_range($mk)));
+        }};
+      }
+      let flat_f: Vec<Frequency> = fs.as_steps().into_iter().flat_map(|(a, b)| [a, b]).collect();
+      let flat_w: Vec<spdcalc::Wavelength> = fs.as_wavelength_space().as_steps().into_iter().flat_map(|(a, b)| [a, b]).collect();
+      eight!("FrequencySpace", fs);
+      eight!("WavelengthSpace", fs.as_wavelength_space());
+      eight!("SumDiffFrequencySpace", fs.as_sum_diff_space());
+      eight!("SignalIdlerFrequencyArray", spdcalc::jsa::SignalIdlerFrequencyArray(flat_f.clone()));
+      eight!("SignalIdlerWavelengthArray", spdcalc::jsa::SignalIdlerWavelengthArray(flat_w.clone()));
+      // a parallel 1-D quadrature inside the parallel grid evaluation
+      let sp_par = spdc.joint_spectrum(Integrator::Simpson { divs: 130 });
+      arrays.push(("jsi_range[Simpson divs=130]/FrequencySpace".to_string(), un(sp_par.jsi_range(fs))));
+      // HOM through the public SPDC methods and the free functions
+      let dt = spdcalc::hom_time_delay(&spdc);
+      let delays: Vec<spdcalc::Time> = (0..5).map(|k| dt + (k as f64 - 2.) * 5e-14 * S).collect();
+      arrays.push(("SPDC::hom_rate_series".to_string(), spdc.hom_rate_series(delays.clone(), fs, integ)));
+      let jsa = sp.jsa_range(fs);
+      let swapped: Vec<Complex<f64>> = fs.as_steps().into_iter().map(|(ws, wi)| sp.jsa(wi, ws)).collect();
+      arrays.push(("hom_rate_series".to_string(), spdcalc::hom_rate_series(fs, &jsa, &swapped, delays.clone())));
+      let two = spdc.hom_two_source_rate_series(delays.clone(), FrequencySpace::new((base.0 .0, base.0 .1, 3), (base.1 .0, base.1 .1, 3)), integ);
+      arrays.push(("SPDC::hom_two_source_rate_series.ss".to_string(), two.ss));
+      arrays.push(("SPDC::hom_two_source_rate_series.ii".to_string(), two.ii));
+      arrays.push(("SPDC::hom_two_source_rate_series.si".to_string(), two.si));
+      let mut scalars: Vec<(String, f64)> = vec![
+        ("counts_coincidences".to_string(), *(spdc.counts_coincidences(fs, integ).value_unsafe())),
+        ("counts_singles_signal".to_string(), *(spdc.counts_singles_signal(fs, integ).value_unsafe())),
+        ("counts_singles_idler".to_string(), *(spdc.counts_singles_idler(fs, integ).value_unsafe())),
+        ("hom_rate(dip)".to_string(), spdcalc::hom_rate(fs, &jsa, &swapped, dt, None)),
+        ("hom_rate(off dip)".to_string(), spdcalc::hom_rate(fs, &jsa, &swapped, dt + 1e-13 * S, None)),
+        ("SPDC::hom_visibility".to_string(), spdc.hom_visibility(fs, integ).1),
+      ];
+      let v2 = spdc.hom_two_source_visibilities(FrequencySpace::new((base.0 .0, base.0 .1, 3), (base.1 .0, base.1 .1, 3)), integ);
+      scalars.push(("SPDC::hom_two_source_visibilities.ss".to_string(), v2.ss.1));
+      scalars.push(("SPDC::hom_two_source_visibilities.ii".to_string(), v2.ii.1));
+      scalars.push(("SPDC::hom_two_source_visibilities.si".to_string(), v2.si.1));
+      // sequential reference, point by point in grid order (the order every *_range array must have)
+      let pts: Vec<(Frequency, Frequency)> = fs.into_signal_idler_iterator().collect();
+      let jsi_seq: Vec<f64> = pts.iter().map(|(a, b)| *(sp.jsi(*a, *b).value_unsafe())).collect();
+      (arrays, scalars, jsi_seq)
+    };
     for &t in &threads {
-      let r = on_pool(t, 300, "spectrum/counts/hom", move || {
-        let spdc = if case % 2 == 0 { SPDC::default() } else { ktp() };
-        let range = spdc.optimum_range(res);
-        let integ = Integrator::Simpson { divs: seq_divs }; // sequential quadrature inside each point
-        let sp = spdc.joint_spectrum(integ);
-        let jsa = sp.jsa_range(range);
-        let jsi: Vec<f64> = sp.jsi_range(range).iter().map(|x| *x.value_unsafe()).collect();
-        let jsi_ws: Vec<f64> = sp.jsi_range(range.as_wavelength_space()).iter().map(|x| *x.value_unsafe()).collect();
-        let jsi_sd: Vec<f64> = sp.jsi_normalized_range(range.as_sum_diff_space());
-        let jsis: Vec<f64> = sp.jsi_singles_range(range).iter().map(|x| *x.value_unsafe()).collect();
-        let cc = *(spdc.counts_coincidences(range, integ).value_unsafe());
-        let cs = *(spdc.counts_singles_signal(range, integ).value_unsafe());
-        let ci = *(spdc.counts_singles_idler(range, integ).value_unsafe());
-        let swapped: Vec<Complex<f64>> = range.as_steps().into_iter().map(|(ws, wi)| sp.jsa(wi, ws)).collect();
-        let dt = spdcalc::hom_time_delay(&spdc);
-        let hom0 = spdcalc::hom_rate(range, &jsa, &swapped, dt, None);
-        let hom1 = spdcalc::hom_rate(range, &jsa, &swapped, dt + 1e-13 * S, None);
-        let (_, vis) = spdc.hom_visibility(range, integ);
-        // a parallel quadrature inside the parallel grid evaluation
-        let sp_par = spdc.joint_spectrum(Integrator::Simpson { divs: 130 });
-        let jsi_nested: Vec<f64> = sp_par.jsi_range(range).iter().map(|x| *x.value_unsafe()).collect();
-        (jsa, jsi, jsi_ws, jsi_sd, jsis, cc, cs, ci, hom0, hom1, vis, jsi_nested)
-      });
-      if let Some((jsa, jsi, jsi_ws, jsi_sd, jsis, cc, cs, ci, hom0, hom1, vis, jsi_nested)) = r {
-        emit(json!({"kind": "pool_spdc", "case": case, "threads": t, "res": res, "jsa": cx(&jsa), "jsi": fxs(&jsi), "jsi_ws": fxs(&jsi_ws), "jsi_sd": fxs(&jsi_sd),
-          "jsis": fxs(&jsis), "cc": fx(cc), "cs": fx(cs), "ci": fx(ci), "hom0": fx(hom0), "hom1": fx(hom1), "vis": fx(vis), "jsi_nested": fxs(&jsi_nested)}));
+      let w = work.clone();
+      if let Some((arrays, scalars, jsi_seq)) = on_pool(t, 600, "spectrum/counts/hom", w) {
+        let mut a = serde_json::Map::new();
+        for (k, v) in arrays {
+          a.insert(k, fxs(&v));
+        }
+        let mut sc = serde_json::Map::new();
+        for (k, v) in scalars {
+          sc.insert(k, fx(v));
+        }
+        emit(json!({"kind": "pool_spdc", "case": case, "setup": if case % 2 == 1 { "SPDC::default()" } else { "KTP type-II (harness c15::ktp)" }, "threads": t,
+          "nx": rx, "ny": ry, "divs": seq_divs, "arrays": a, "scalars": sc, "jsi_pointwise_sequential": fxs(&jsi_seq)}));
       }
     }
   }
